@@ -75,113 +75,12 @@ def _():
         "`range(len(peaks))`, `range(shape[1])`, `range(shape[2])` (checked by the translator)")
 
 
-def tr_crop(node, env, prefix):
-    """tr() extended with frame_coord_y/x(peak, e) calls of the slicing back-end"""
-    for sub in ast.walk(node):
-        if isinstance(sub, ast.Call) and isinstance(sub.func, ast.Name) \
-                and sub.func.id in ("frame_coord_y", "frame_coord_x"):
-            if len(sub.args) != 2 or ast.unparse(sub.args[0]) != "peak":
-                raise Untranslatable("unexpected arguments of " + sub.func.id)
-            inner, t = tr_crop(sub.args[1], env, prefix)
-            if t != INT:
-                raise Untranslatable("coordinate argument is not Int")
-            name = f"{prefix}_coord_" + sub.func.id[-1]
-            env.subst[ast.unparse(sub)] = (f"({name} crop_size peak0 peak1 {inner})", INT)
-    return tr(node, env)
-
-
-@fragment("Crop", "sl_coord_y")
-def _():
-    return _coord("crop_disks_from_frame_slicing", "frame_coord_y", "sl_coord_y")
-
-
-@fragment("Crop", "sl_coord_x")
-def _():
-    return _coord("crop_disks_from_frame_slicing", "frame_coord_x", "sl_coord_x")
-
-
 @fragment("Crop", "sl_bounds")
 def _():
-    fn = find_def(BC, "crop_disks_from_frame_slicing")
-    loops = for_loops(fn)
-    if len(loops) != 1 or ast.unparse(loops[0].target) != "i" \
-            or ast.unparse(loops[0].iter) != "range(len(peaks))":
-        raise Untranslatable("slicing crop: expected one loop `for i in range(len(peaks))`")
-    env = Env(subst=dict(CROP_SUBST),
-              vars={n: (n, INT) for n in ("fy", "fx", "crop_size", "peak0", "peak1", "h", "w")})
-    env.subst["out_crop_bufs.shape[1]"] = ("h", INT)
-    env.subst["out_crop_bufs.shape[2]"] = ("w", INT)
-    for n in ("fy", "fx", "crop_size", "peak0", "peak1", "h", "w"):
-        env.counter[n] = 1
-    lines = []
-    zero_fill = False
-    store = None
-    for s in loops[0].body:
-        src = ast.unparse(s)
-        if src == "peak = peaks[i]":
-            continue
-        if src == "out_crop_bufs[i] = 0":
-            if store is None:
-                zero_fill = True
-            continue
-        if isinstance(s, ast.Assign) and isinstance(s.targets[0], ast.Subscript):
-            if store is not None:
-                raise Untranslatable("more than one buffer store in the slicing crop")
-            store = s
-            continue
-        if store is not None:
-            raise Untranslatable("statements after the buffer store")
-        if isinstance(s, ast.Assign):
-            txt, t = tr_crop(s.value, env, "sl")
-            for tg in s.targets:
-                if not isinstance(tg, ast.Name):
-                    raise Untranslatable("assignment target")
-                ln = env.fresh(tg.id)
-                lines.append(f"let {ln} : {t} := {txt}")
-                env.vars[tg.id] = (ln, t)
-            continue
-        if isinstance(s, ast.If):
-            ls, r = tr_block([s], env)
-            lines += ls
-            continue
-        raise Untranslatable(f"statement `{src[:50]}` in the slicing crop")
-    if store is None:
-        raise Missing("buffer store of the slicing crop")
-    tgt = store.targets[0]
-    if ast.unparse(tgt.value) != "out_crop_bufs" or not isinstance(tgt.slice, ast.Tuple) \
-            or len(tgt.slice.elts) != 3 or ast.unparse(tgt.slice.elts[0]) != "i":
-        raise Untranslatable("target of the slicing crop store")
-    # source: sparseconverter.for_backend(frame[a:b, c:d], target_backend) or frame[a:b, c:d]
-    val = store.value
-    if isinstance(val, ast.Call) and ast.unparse(val.func) == "sparseconverter.for_backend":
-        val = val.args[0]
-    if not (isinstance(val, ast.Subscript) and ast.unparse(val.value) == "frame"
-            and isinstance(val.slice, ast.Tuple) and len(val.slice.elts) == 2):
-        raise Untranslatable("source of the slicing crop store")
-
-    def bound(e):
-        if e is None:
-            return "(none : Option Int)"
-        txt, t = tr_crop(e, env, "sl")
-        return coerce(txt, t, OPTINT)
-    fields = []
-    for label, sl in (("t_y", tgt.slice.elts[1]), ("t_x", tgt.slice.elts[2]),
-                      ("s_y", val.slice.elts[0]), ("s_x", val.slice.elts[1])):
-        if not isinstance(sl, ast.Slice) or sl.step is not None:
-            raise Untranslatable(f"{label} is not a plain slice")
-        fields.append(f"{label}_lo := {bound(sl.lower)}")
-        fields.append(f"{label}_hi := {bound(sl.upper)}")
-    ret = "{ " + ", ".join(fields) + " }"
-    body = "\n".join("  " + ln for ln in lines + [ret])
-    return (
-        "/-- bounds of the slice assignment `out_crop_bufs[i, t_y, t_x] = frame[s_y, s_x]` of\n"
-        "`crop_disks_from_frame_slicing` (`none` = omitted bound / Python `None`) -/\n"
-        "structure SliceBounds where\n  t_y_lo : Option Int\n  t_y_hi : Option Int\n"
-        "  t_x_lo : Option Int\n  t_x_hi : Option Int\n  s_y_lo : Option Int\n  s_y_hi : Option Int\n"
-        "  s_x_lo : Option Int\n  s_x_hi : Option Int\n\n"
-        "def sl_bounds (fy fx crop_size peak0 peak1 h w : Int) : SliceBounds :=\n" + body + "\n\n"
-        "/-- does `out_crop_bufs[i] = 0` precede the slice store in the loop body? -/\n"
-        f"def sl_zero_fill : Bool := {lean_bool(zero_fill)}\n")
+    """the slicing back-end: slice bounds of the store `out[i, ty, tx] = frame[sy, sx]` and the zero fill (whole-kernel
+    translation, see kernels.py: local and module-level helpers inlined, free names)"""
+    import kernels as K
+    return K.slice_kernel_def(BC, "crop_disks_from_frame_slicing")
 
 
 # ======================================================================================
